@@ -6,7 +6,7 @@ from pyvc.calls import Contract
 MEMO_PUT = {"PUT", "BINPUT", "LONG_BINPUT"}
 MEMO_GET = {"GET", "BINGET", "LONG_BINGET"}
 STK = "interpreter.stack._stack"
-MAY_RAISE = ["ValueError", "IndexError", "KeyError", "NotImplementedError", "TypeError", "AttributeError"]
+MAY_RAISE = ["ValueError", "IndexError", "KeyError", "NotImplementedError", "TypeError", "AttributeError", "OverflowError"]
 
 
 def shape_spec(name, info):
